@@ -46,5 +46,5 @@ def generate_programs(out, cfg, path, simulate=None, depth=None, seed=None, time
 
 def nontrivial(ast):
     """a program is non-trivial if it composes at least two constructs (operators / brackets)"""
-    atoms = {"n0", "n1", "n2", "n5", "nmax", "f05", "f2", "f15", "f0", "f1", "f5", "unit", "tru", "fls", "syma", "symb", "symc", "strs", "stre", "strab", "val", "ida", "idb", "idc"}
+    atoms = {"n0", "n1", "n2", "n5", "nmax", "f05", "f2", "f15", "f0", "f1", "f5", "unit", "tru", "fls", "syma", "symb", "symc", "strs", "stre", "strab", "byab", "bys", "val", "ida", "idb", "idc"}
     return sum(1 for l in ast if l not in atoms) >= 2
